@@ -372,6 +372,63 @@ def check_device_mesh(ctx, cfg, dev, with_model=True):
             bad_cnt = int(((cnt < 1) | (cnt > 2)).sum())
             if bad_cnt:
                 fail("edge-in-more-than-two-triangles", f"{bad_cnt} edges belong to 0 or more than 2 triangles", count=bad_cnt)
+        # dual edges from the site coordinates alone (Tdgl/Geometry.lean ccOffset / inCircle / dualInner2 / dualBoundary2; theorems
+        # C07_dual_inner_sq, C07_dual_boundary_sq, C07_delaunay_iff, C07_unencroached_iff): the model's length against the stored
+        # dual_edge_lengths, its signed face against the one measured from the code's dual_sites, and the sign of the signed face
+        # against the in-circle / diametral-circle predicate evaluated here
+        if same_edges:
+            adj = {}
+            for tri in T:
+                for k_ in range(3):
+                    a_, b_, c_ = int(tri[k_]), int(tri[(k_ + 1) % 3]), int(tri[(k_ + 2) % 3])
+                    adj[(a_, b_)] = c_  # triangle on the left of a -> b has the opposite vertex c
+            lines, meta = [], []
+            for e, (i, j) in enumerate(em.edges):
+                i, j = int(i), int(j)
+                left, right = adj.get((i, j)), adj.get((j, i))
+                if left is not None and right is not None:
+                    lines.append("dual | " + zoo.fl(np.concatenate([P[i], P[j], P[left], P[right]])))
+                    meta.append((e, i, j, left, right))
+                elif left is not None:
+                    lines.append("dual | " + zoo.fl(np.concatenate([P[i], P[j], P[left]])))
+                    meta.append((e, i, j, left, None))
+                elif right is not None:
+                    lines.append("dual | " + zoo.fl(np.concatenate([P[j], P[i], P[right]])))
+                    meta.append((e, j, i, right, None))
+            out = V.driver(lines)
+            ctx.traces += 1
+            Lm = em.edge_lengths.mean()
+            wlen = wsig = 0.0
+            sign_bad = []
+            n_nd = 0
+            for (e, i, j, c_, d_), o in zip(meta, out):
+                v = [V.unbits(x) for x in o.split()]
+                lab = float(np.linalg.norm(P[j] - P[i]))
+                if d_ is not None:
+                    s_sum, inc, d2 = v[0] + v[1], v[2], v[3]
+                    # independent predicate: is d strictly inside the circumcircle of (i, j, c)?  (|d - O|^2 - R^2, O from three bisector equations)
+                    M_ = np.array([P[j] - P[i], P[c_] - P[i]]) * 2
+                    O_ = np.linalg.solve(M_, np.array([P[j] @ P[j] - P[i] @ P[i], P[c_] @ P[c_] - P[i] @ P[i]]))
+                    pw = float((P[d_] - O_) @ (P[d_] - O_) - (P[i] - O_) @ (P[i] - O_))  # < 0: inside
+                    scale = float((P[i] - O_) @ (P[i] - O_))
+                    if abs(pw) > 1e-9 * scale and ((s_sum >= 0) != (pw > 0) or (inc <= 0) != (pw > 0)):
+                        sign_bad.append(dict(edge=int(e), signed_face=s_sum * lab, in_circle=inc, power=pw))
+                    n_nd += int(pw < -1e-9 * scale)
+                else:
+                    s_sum, d2 = v[0], v[1]
+                    m_ = (P[i] + P[j]) / 2
+                    pw = float((P[c_] - m_) @ (P[c_] - m_) - (P[i] - m_) @ (P[i] - m_))  # < 0: c encroaches the boundary edge
+                    if abs(pw) > 1e-9 * lab * lab and (s_sum >= 0) != (pw > 0):
+                        sign_bad.append(dict(edge=int(e), signed_half_face=s_sum * lab, power=pw))
+                wlen = max(wlen, abs(np.sqrt(d2) - em.dual_edge_lengths[e]) / Lm)
+                wsig = max(wsig, abs(s_sum * lab - sd[e]) / Lm)
+            ctx.count("dual_edges_through_model", len(meta))
+            ctx.count("non_delaunay_inner_edges", n_nd)
+            ctx.tol("dual edge length (Lean, Float, from site coordinates) vs edge_mesh.dual_edge_lengths (rel to mean edge)", wlen, 1e-8)
+            ctx.corr(wlen <= 1e-8, "dual edge length (Lean dualInner2 / dualBoundary2) vs get_dual_edge_lengths", dict(tag, worst=wlen))
+            ctx.corr(wsig <= 1e-8, "signed dual face (Lean ccOffset sum) vs the one measured from dual_sites", dict(tag, worst=wsig))
+            ctx.corr(not sign_bad, "sign of the signed face vs in-circle / diametral-circle predicate (C07_delaunay_iff, C07_unencroached_iff instances)",
+                     dict(tag, first=sign_bad[:1]))
     if len(ctx.samples) < 4:
         ctx.samples.append(dict(tag, edges=E, triangles=nt, holes=len(holes), excluded_sites=int((~site_ok).sum()), euler=euler))
     return first
